@@ -45,7 +45,8 @@ def integ_refs(w, p):
 
 MACROS = dict(hold_script=scripts.hold_script, foreign_script=scripts.foreign_script,
               reset_script=scripts.reset_script, admin_script=scripts.admin_script,
-              events_script=scripts.events_script, repeat_script=scripts.repeat_script)
+              events_script=scripts.events_script, repeat_script=scripts.repeat_script,
+              conflict_script=scripts.conflict_script)
 
 
 def run_step(w, st, res):
